@@ -218,7 +218,9 @@ def unit_small(ctx):
     ctx.reach(sess, f"twin:velocity/{alias}", True)
     rp = lib.make_replay(ctx, kt, "mujoco_warp._src.forward:_next_velocity", f"vel{alias}", "goal", goal="checks.c08:goal_small", env={"kind": "velocity", "randomize_floats": 2})
     tag = "inplace" if alias else "separate"
-    ctx.prove(sess, f"next_velocity/{tag}", kt.post("qvel_out", w, i) == kt.pre("qvel_in", w, i) + kt.args["qacc_scale_in"] * kt.pre("qacc_in", w, i) * h, names={"w": w, "i": i}, replay=rp, desc="_next_velocity: qvel_next != qvel + scale*h*qacc")
+    sc_, qa_, qv_ = kt.args["qacc_scale_in"], kt.pre("qacc_in", w, i), kt.pre("qvel_in", w, i)
+    nice = [h >= z3.RealVal("1/100"), h <= z3.RealVal("1/10"), sc_ == z3.RealVal("1/2"), qa_ >= 1, qa_ <= 4, qv_ >= -2, qv_ <= 2]
+    A.prove_nice(ctx, sess, f"next_velocity/{tag}", kt.post("qvel_out", w, i) == qv_ + sc_ * qa_ * h, nice=nice, names={"w": w, "i": i, "scale": sc_, "h": h}, replay=rp, desc="_next_velocity: qvel_next != qvel + scale*h*qacc")
     w2, i2 = z3.Int("w2"), z3.Int("i2")
     ctx.prove(sess, f"next_velocity/{tag}/frame", Implies(kt.written("qvel_out", w2, i2), z3.And(w2 == w, i2 == i)), names={"w": w, "i": i}, replay=rp, desc="_next_velocity writes another dof")
   # time
@@ -253,6 +255,85 @@ def unit_small(ctx):
   ctx.prove(sess, "damping/M-diagonal+=h*D", kt.atomic_total("M_integration_out", w2, c) == ite(z3.And(w2 == w, c == diag), h * kt.pre("damp_deriv", w, i), 0.0), names={"w": w, "i": i, "c": c, "w2": w2}, replay=rp,
             desc="_euler_damp_qfrc: h*dD/dv is not added exactly to the diagonal entry of the dof's row (last entry of the CSR row)")
   ctx.prove(sess, "damping/no-plain-store", Not(kt.written("M_integration_out", w2, c, kinds=("W",))), names={"w": w}, replay=rp, desc="_euler_damp_qfrc overwrites M")
+
+
+# ------------------------------------------------------------------------------------------------ _next_position (parity)
+
+
+def goal_next_position(spec, pre, post):
+  """parity replay goal: the slots written by the real kernel vs mj_integratePos on the same inputs (mujoco.mju_quatIntegrate)"""
+  w, j = spec["tid"][0], spec["tid"][1]
+  jt, qa, da = int(pre["jnt_type"][j]), int(pre["jnt_qposadr"][j]), int(pre["jnt_dofadr"][j])
+  ts = pre["opt_timestep"]
+  h = float(ts[w % len(ts)])
+  scale = float(spec["args"]["qvel_scale_in"]["scalar"])
+  qin, qout, vel = pre["qpos_in"][w].astype(float), post["qpos_out"][w].astype(float), pre["qvel_in"][w].astype(float) * scale
+  want = np.array(I.integrate_pos([(jt, qa, da)], list(qin), list(vel), h, I.quat_integrate_num), dtype=float)
+  width = {I.FREE: 7, I.BALL: 4}.get(jt, 1)
+  if jt in (I.FREE, I.BALL):
+    qq = qin[qa + (3 if jt == I.FREE else 0) :][:4]
+    if float(qq @ qq) < 1e-12:
+      return True, "skipped: zero quaternion (reported separately: quat_integrate:zero-quat)"
+  ok = bool(np.allclose(qout[qa : qa + width], want[qa : qa + width], rtol=1e-3, atol=2e-4))
+  msg = f"joint type {jt}: qpos[{qa}:{qa + width}] = {qout[qa : qa + width].tolist()}, mj_integratePos(qpos, qvel*{scale}, h={h}) = {want[qa : qa + width].tolist()}"
+  before, after = pre["qpos_out"], post["qpos_out"]
+  for ww in range(after.shape[0]):
+    for i in range(after.shape[1]):
+      if (ww != w or not (qa <= i < qa + width)) and after[ww, i] != before[ww, i]:
+        ok = False
+        msg += f"; qpos[{ww},{i}] changed {before[ww, i]} -> {after[ww, i]} (outside the joint's slots)"
+  return ok, msg
+
+
+def unit_next_position(alias):
+  def run(ctx):
+    from mujoco_warp._src import forward, math as M, types
+
+    k = forward._next_position
+    ctx.encode(k, M.quat_integrate)
+    ctx.assume("quat_integrate is an uninterpreted function shared with the reference (unit quat_integrate: equal to mju_quatIntegrate for q != 0)", "thread's own accesses in bounds (C17)", "jnt_type in {FREE, BALL, SLIDE, HINGE}")
+    ctx.bound(shape_cap=12, aliasing="qpos_in is qpos_out" if alias else "qpos_in and qpos_out distinct arrays (RK4 stage)")
+    it = Q.CInterp(summaries=Q.summaries("quat_integrate"), norm="uf")
+    kt = lib.kernel_thread(k, alias_inout=alias, cap=12, interp_kw={"interp": it})
+    w, j = kt.tid
+    JT = types.JointType
+    T, qa, da = kt.pre("jnt_type", j), kt.pre("jnt_qposadr", j), kt.pre("jnt_dofadr", j)
+    ts = kt.pre("opt_timestep", arith("%", w, kt.cell("opt_timestep").shape[0]))
+    scale = kt.args["qvel_scale_in"]
+    qp = lambda i: kt.pre("qpos_in", w, arith("+", qa, i))
+    qn = lambda i: kt.post("qpos_out", w, arith("+", qa, i))
+    vel = lambda i: kt.pre("qvel_in", w, arith("+", da, i))
+    sess = ctx.session(kt.bg + [z3.Or(*[T == int(x) for x in (JT.FREE, JT.BALL, JT.SLIDE, JT.HINGE)])])
+    loc = "mujoco_warp._src.forward:_next_position"
+    names = {"w": w, "j": j, "type": T, "qposadr": qa, "dofadr": da, "scale": scale, "h": ts}
+    rp = lambda n: lib.make_replay(ctx, kt, loc, n, "goal", goal="checks.c08:goal_next_position", env={"randomize_floats": 3})
+    half = z3.RealVal("1/2")
+    # well-conditioned region for counterexamples: h in [0.01, 0.1], scale = 1/2 (an RK4 stage), velocities of magnitude in [1/2, 2], unit quaternion
+    nice = [ts >= z3.RealVal("1/100"), ts <= z3.RealVal("1/10"), scale == half]
+    for i in range(6):
+      nice += [z3.Or(z3.And(vel(i) >= half, vel(i) <= 2), z3.And(vel(i) <= -half, vel(i) >= -2))]
+    for i in range(3):
+      nice += [qp(i) >= -2, qp(i) <= 2]
+    for nm, tv, off in (("free", int(JT.FREE), 3), ("ball", int(JT.BALL), 0)):
+      ctx.reach(sess, f"twin:{nm}", T == tv)
+      qin = Vec([qp(off + i) for i in range(4)], (4,), "quat")
+      vin = Vec([arith("*", vel(off + i), scale) for i in range(3)], (3,), "f")
+      ref = Q.qi_uf(qin, vin, ts)
+      nq = nice + [qp(off + i) == half for i in range(4)]
+      for i in range(4):
+        A.prove_nice(ctx, sess, f"{nm}/quat-slot.{i}=mju_quatIntegrate", qn(off + i) == ref.c[i], T == tv, nice=nq, names=names, replay=rp(f"{nm}.slot{i}"), desc=f"_next_position ({nm} joint): quaternion slot {i} is not mju_quatIntegrate(q, w*scale, h)[{i}]")
+    for i in range(3):
+      A.prove_nice(ctx, sess, f"free/pos.{i}", qn(i) == qp(i) + ts * vel(i) * scale, T == int(JT.FREE), nice=nice + [qp(3 + k) == half for k in range(4)], names=names, replay=rp(f"free.pos{i}"), desc="_next_position (free joint): translational slot is not pos + h*v*scale")
+    scalar = z3.Or(T == int(JT.SLIDE), T == int(JT.HINGE))
+    ctx.reach(sess, "twin:scalar", scalar)
+    A.prove_nice(ctx, sess, "scalar/qpos+h*qvel", qn(0) == qp(0) + ts * vel(0) * scale, scalar, nice=nice, names=names, replay=rp("scalar"), desc="_next_position (slide/hinge): qpos_next != qpos + h*qvel*scale")
+    w2, i2 = z3.Int("w2"), z3.Int("i2")
+    width = z3.If(T == int(JT.FREE), 7, z3.If(T == int(JT.BALL), 4, 1))
+    inside = z3.And(w2 == w, i2 >= qa, i2 < qa + width)
+    ctx.prove(sess, "frame/only-own-slots-written", Implies(kt.written("qpos_out", w2, i2), inside), names=dict(names, w2=w2, i2=i2), replay=rp("frame"), desc="_next_position writes a qpos cell outside the joint's own slots")
+    ctx.prove(sess, "frame/all-own-slots-written", kt.written("qpos_out", w2, i2), inside, names=dict(names, w2=w2, i2=i2), replay=rp("frame2"), desc="_next_position leaves one of the joint's qpos slots unwritten")
+
+  return (f"next_position/{'inplace' if alias else 'separate'}", run)
 
 
 # ------------------------------------------------------------------------------------------------ host mode
@@ -344,7 +425,7 @@ def api_replay(model, integ, flags="", nstep=3, what=STATE[:4]):
     xml, mjm, m, d = build(model, integ, flags)
     rng = np.random.default_rng(1)
     mjd = mujoco.MjData(mjm)
-    mjd.qvel[:] = rng.normal(size=mjm.nv)
+    mjd.qvel[:] = rng.normal(size=mjm.nv) * 2.0
     mjd.act[:] = rng.normal(size=mjm.na) * 0.3
     d = mjw.put_data(mjm, mjd)
     out, bad = [], False
@@ -358,7 +439,7 @@ def api_replay(model, integ, flags="", nstep=3, what=STATE[:4]):
       for f in what:
         a, b = np.atleast_1d(np.asarray(getattr(mjd, f), dtype=float)), getattr(d, f).numpy()[0].astype(float).reshape(-1)
         row[f] = {"mujoco": a.tolist(), "mujoco_warp": b.tolist()}
-        bad = bad or not np.allclose(a, b, rtol=2e-3, atol=2e-4)
+        bad = bad or not np.allclose(a, b, rtol=3e-4, atol=3e-5)
       out.append(row)
     return bad, _save(f"api.{model}.{integ}.{flags.replace(' ', '').replace('/', '').replace('<', '').replace('>', '').replace(chr(34), '')}", {"xml": xml, "steps": out, "how": "random qvel/act/ctrl (numpy default_rng(1)), mjw.step vs mujoco.mj_step"})
 
@@ -541,6 +622,16 @@ def unit_implicit(integ):
     if kinds != want_kinds:
       ctx.violation("branch", f"implicit ({integ}): call sequence {kinds}, expected {want_kinds}", rp(None)[1])
       return
+    if integ == "implicit":
+      # MuJoCo: qLU = M - h*(d qfrc_smooth/dv - d RNE/dv), i.e. the RNE (bias force) derivative enters with +h; deriv_smooth_vel delivers
+      # M - h*d qfrc_smooth/dv, so deriv_rne_vel must ADD h*dRNE/dv (flg_subtract=False).  Host-trace check, confirmed through the public API.
+      flg = [c[2] for c in st_.calls if c[0] == "deriv_rne_vel"][0]
+      if flg:
+        bad, path = rp(None)
+        if bad:
+          ctx.violation("rne-derivative-sign", "implicit (fully implicit integrator): deriv_rne_vel is called with flg_subtract=True, so the system matrix is M - h*dsmooth/dv - h*dRNE/dv; MuJoCo uses M - h*(dsmooth/dv - dRNE/dv) = ... + h*dRNE/dv (mjw.step deviates from mujoco.mj_step by ~1% in qvel after one step; with flg_subtract=False it agrees to 1e-5)", path)
+        else:
+          ctx.error("implicit: deriv_rne_vel called with flg_subtract=True but the API comparison with mujoco does not show a difference")
     solve = st_.calls[-1]
     ctx.prove(sess, "rhs-is-efc.Ma", And(*[a == b for a, b in zip(solve[2].ref.cell.d[0], cells(arrs, "efc.Ma"))]), replay=rp, desc=f"implicit ({integ}): right-hand side of the solve is not M*qacc")
     qacc = list(solve[3].ref.cell.d[0])
@@ -595,7 +686,7 @@ def main(tier, seed, only=None):
   from mujoco_warp._src import forward, smooth, support, util_misc  # noqa
 
   units = [("reference", unit_reference), ("quat_integrate", unit_quat_integrate), ("kernels", unit_small)]
-  pid_units = [c23.unit_next_position(True), c23.unit_next_position(False)]
+  pid_units = [unit_next_position(True), unit_next_position(False)]
   pid_units += [c03.unit_next_activation(dn, 2 if tier != "thorough" else 3) for dn in A.DYN if dn != "none"]
   units += pid_units
   units += [unit_advance(False), unit_advance(True)]
